@@ -31,6 +31,7 @@ func init() {
 func runC14(c *core.Ctx, r *core.Reporter) {
 	c.BuildSSA()
 	c14count(c, r)
+	c14edge(c, r)
 	c.BuildSSA()
 	c14kw(c, r)
 	c14sibling(c, r)
